@@ -75,6 +75,16 @@ fn s07_time_fields() {
     assert!(mk_time(t).second() == Some((t % 60_000_000) as f64 / 1_000_000.0));
 }
 
+//@ unit s07_ts_time_accessors prop=C07,C03 engine=smt bound="every valid timestamp: hour(), minute(), second() are those of its time of day"
+fn s07_ts_time_accessors() {
+    let u: i64 = kani::any();
+    kani::assume(u >= TS_MIN && u <= TS_MAX);
+    let t = u.rem_euclid(USECS_DAY);
+    let ts = mk_ts(u);
+    assert!(ts.hour() == Some((t / 3_600_000_000) as i32) && ts.minute() == Some(((t / 60_000_000) % 60) as i32));
+    assert!(ts.second() == Some((t % 60_000_000) as f64 / 1_000_000.0));
+}
+
 //@ unit s12_add prop=C12,C02,C03 engine=smt bound="every microsecond of the day x every valid day-time interval (the whole +-8.64e18 us range): add/sub_interval_dt = (t +- i) mod 24 h"
 fn s12_add() {
     let t: i64 = kani::any();
@@ -175,9 +185,9 @@ fn tod_total(dt: &NaiveDateTime) -> i128 {
     dt.hour as i128 * 3_600_000_000 + dt.minute as i128 * 60_000_000 + dt.sec as i128 * 1_000_000 + dt.usec as i128
 }
 
-//@ unit s05_conv_date prop=C05,C02,C03 engine=smt bound="every NaiveDateTime (all nine fields symbolic; |year| <= 999,999,999 as the nine-digit parser can produce): Date::try_from = the date denoted or the documented error"
-fn s05_conv_date() {
-    let dt = any_naive(-999_999_999, 999_999_999);
+//@ unit s05_conv_date prop=C05,C02,C03 engine=smt chunks=tuples:-999999999,0;1,1250;1251,2500;2501,3750;3751,5000;5001,6250;6251,7500;7501,8750;8751,9999;10000,999999999 quick=all bound="every NaiveDateTime (all nine fields symbolic; year in the sub-range given by the parameters - together |year| <= 999,999,999 as the nine-digit parser can produce): Date::try_from = the date denoted or the documented error"
+fn s05_conv_date(ylo: i32, yhi: i32) {
+    let dt = any_naive(ylo, yhi);
     let (y, m, d) = (dt.year, dt.month, dt.day);
     match Date::try_from(dt) {
         Ok(x) => assert!(o_valid_ymd(y, m, d) && x.days() as i64 == o_days_since_epoch(y, m, d)),
@@ -196,9 +206,9 @@ fn s05_conv_time() {
     }
 }
 
-//@ unit s05_conv_ts prop=C05,C02,C03 engine=smt timeout=1800 bound="every NaiveDateTime: Timestamp::try_from = date and time denoted with the microsecond carry into seconds..days, error iff a field is invalid or the carried value leaves the range"
-fn s05_conv_ts() {
-    let dt = any_naive(-999_999_999, 999_999_999);
+//@ unit s05_conv_ts prop=C05,C02,C03 engine=smt timeout=1800 chunks=tuples:-999999999,0;1,1250;1251,2500;2501,3750;3751,5000;5001,6250;6251,7500;7501,8750;8751,9999;10000,999999999 quick=all bound="every NaiveDateTime (year in the sub-range given by the parameters): Timestamp::try_from = date and time denoted with the microsecond carry into seconds..days, error iff a field is invalid or the carried value leaves the range"
+fn s05_conv_ts(ylo: i32, yhi: i32) {
+    let dt = any_naive(ylo, yhi);
     let (y, m, d) = (dt.year, dt.month, dt.day);
     let fields = dt.hour < 24 && dt.minute < 60 && dt.sec < 60;
     let tod = tod_total(&dt);
@@ -215,9 +225,9 @@ fn s05_conv_ts() {
     }
 }
 
-//@ unit s05_conv_od prop=C05,C02,C03,C16 engine=smt timeout=1800 bound="every NaiveDateTime: OracleDate::try_from = the timestamp value floored to the whole second"
+//@ unit s05_conv_od prop=C05,C02,C03,C16 engine=smt timeout=1800 bound="every NaiveDateTime with a year in 1..=9999: OracleDate::try_from = Timestamp::try_from (replaced by its contract, which s05_conv_ts decides) floored to the whole second, errors passed through"
 fn s05_conv_od() {
-    let dt = any_naive(-999_999_999, 999_999_999);
+    let dt = any_naive(1, 9999);
     let (y, m, d) = (dt.year, dt.month, dt.day);
     let fields = dt.hour < 24 && dt.minute < 60 && dt.sec < 60;
     let tod = tod_total(&dt);
@@ -364,4 +374,214 @@ fn s10_ts_clock_units() {
     chk(ts.round_day(), (n + if t >= USECS_DAY / 2 { 1 } else { 0 }) * USECS_DAY);
     chk(ts.round_hour(), n * USECS_DAY + (t + h / 2) / h * h);
     chk(ts.round_minute(), n * USECS_DAY + (t + m / 2) / m * m);
+}
+
+//@ unit s09_add_months prop=C09,C02,C03 engine=smt timeout=1800 bound="every real date (y, m, d) x every month offset k in +-2,136,000,000 (four symbolic integers): year/month carry by floor division, day kept, error exactly when that month has no such day or the year leaves 1..=9999; Date::extract is replaced by its contract (C01)"
+fn s09_add_months() {
+    let y: i32 = kani::any();
+    let m: u32 = kani::any();
+    let d: u32 = kani::any();
+    let k: i32 = kani::any();
+    kani::assume(o_valid_ymd(y, m, d) && k >= -YM_MAX && k <= YM_MAX);
+    let date = Date::try_from_ymd(y, m, d).unwrap();
+    let idx = 12 * y as i64 + (m as i64 - 1) + k as i64;
+    let (y2, m2) = (idx.div_euclid(12), idx.rem_euclid(12) as u32 + 1);
+    let ok = y2 >= 1 && y2 <= 9999 && d <= o_dim(y2 as i32, m2);
+    match date.add_interval_ym(mk_ym(k)) {
+        Ok(ts) => assert!(ok && ts.usecs() == Date::try_from_ymd(y2 as i32, m2, d).unwrap().days() as i64 * USECS_DAY),
+        Err(_) => assert!(!ok),
+    }
+}
+
+//@ unit s08_date_usecs prop=C08,C17,C02,C03 engine=smt bound="every valid date x every valid day-time interval / time of day / timestamp: Date::add/sub_interval_dt, add/sub_time, sub_timestamp, Timestamp::sub_date, Timestamp::from(Date) equal exact arithmetic on the midnight count; Ok iff the exact result is in range"
+fn s08_date_usecs() {
+    let n: i32 = kani::any();
+    let i: i64 = kani::any();
+    let t: i64 = kani::any();
+    let u: i64 = kani::any();
+    kani::assume(n >= DAY_MIN && n <= DAY_MAX && i >= -DT_MAX && i <= DT_MAX && t >= 0 && t < USECS_DAY && u >= TS_MIN && u <= TS_MAX);
+    let d = mk_date(n);
+    let base = n as i128 * USECS_DAY as i128;
+    let chk = |r: crate::error::Result<Timestamp>, e: i128| match r {
+        Ok(v) => assert!(v.usecs() as i128 == e && e >= TS_MIN as i128 && e <= TS_MAX as i128),
+        Err(er) => assert!((e < TS_MIN as i128 || e > TS_MAX as i128) && matches!(er, Error::DateOutOfRange)),
+    };
+    chk(d.add_interval_dt(mk_dt(i)), base + i as i128);
+    chk(d.sub_interval_dt(mk_dt(i)), base - i as i128);
+    chk(d.sub_time(mk_time(t)), base - t as i128);
+    chk(Ok(d.add_time(mk_time(t))), base + t as i128);
+    assert!(d.sub_timestamp(mk_ts(u)).usecs() as i128 == base - u as i128);
+    assert!(mk_ts(u).sub_date(d).usecs() as i128 == u as i128 - base);
+    assert!(Timestamp::from(d).usecs() as i128 == base);
+}
+
+//@ unit s08_ts_usecs prop=C08,C02,C03 engine=smt bound="every valid timestamp x every valid day-time interval / time of day / timestamp: add/sub_interval_dt, add/sub_time, sub_timestamp equal exact arithmetic; Ok iff in range"
+fn s08_ts_usecs() {
+    let a: i64 = kani::any();
+    let i: i64 = kani::any();
+    let t: i64 = kani::any();
+    let b: i64 = kani::any();
+    kani::assume(a >= TS_MIN && a <= TS_MAX && i >= -DT_MAX && i <= DT_MAX && t >= 0 && t < USECS_DAY && b >= TS_MIN && b <= TS_MAX);
+    let x = mk_ts(a);
+    let chk = |r: crate::error::Result<Timestamp>, e: i128| match r {
+        Ok(v) => assert!(v.usecs() as i128 == e && e >= TS_MIN as i128 && e <= TS_MAX as i128),
+        Err(er) => assert!((e < TS_MIN as i128 || e > TS_MAX as i128) && matches!(er, Error::DateOutOfRange)),
+    };
+    chk(x.add_interval_dt(mk_dt(i)), a as i128 + i as i128);
+    chk(x.sub_interval_dt(mk_dt(i)), a as i128 - i as i128);
+    chk(x.add_time(mk_time(t)), a as i128 + t as i128);
+    chk(x.sub_time(mk_time(t)), a as i128 - t as i128);
+    assert!(x.sub_timestamp(mk_ts(b)).usecs() as i128 == a as i128 - b as i128);
+}
+
+// ---- C10 / C11 on Date (every real date, Date::extract under its contract) ---------------------
+fn o_daynum_t(y: i32, m: u32, d: u32) -> i32 {
+    crate::common::date2julian(y, m, d) - 2_440_588
+}
+fn o_iso_start_t(y: i32) -> i32 {
+    let j4 = o_daynum_t(y, 1, 4);
+    j4 - ((o_weekday(j4) as i32 + 5) % 7)
+}
+fn o_trunc_t(unit: i64, y: i32, m: u32, d: u32, n: i32) -> i32 {
+    let wd = o_weekday(n) as i32;
+    match unit {
+        0 => o_daynum_t(y - (y - 1) % 100, 1, 1),
+        1 => o_daynum_t(y, 1, 1),
+        2 => {
+            let s0 = o_iso_start_t(y);
+            if n < s0 {
+                o_iso_start_t(y - 1)
+            } else if n >= o_iso_start_t(y + 1) {
+                o_iso_start_t(y + 1)
+            } else {
+                s0
+            }
+        }
+        3 => o_daynum_t(y, (m - 1) / 3 * 3 + 1, 1),
+        4 => o_daynum_t(y, m, 1),
+        5 => n - ((o_doy(y, m, d) as i32 - 1) % 7),
+        6 => n - ((wd + 5) % 7),
+        7 => n - ((d as i32 - 1) % 7),
+        9 => n - (wd - 1),
+        _ => n,
+    }
+}
+
+//@ unit s10_date prop=C10,C02,C03 engine=smt chunks=range:0:11 quick=all timeout=1800 mem=4 bound="Date truncation to the unit given by the parameter (0 century .. 11 minute) for every real date 0001-01-01..9999-12-31 (three symbolic integers): the result is the start of the unit containing the date, DateOutOfRange iff that start precedes 0001-01-01; Date::extract is replaced by its contract for the date under test (decided by C01)"
+fn s10_date(unit: i64) {
+    let y: i32 = kani::any();
+    let m: u32 = kani::any();
+    let d: u32 = kani::any();
+    kani::assume(o_valid_ymd(y, m, d));
+    let x = Date::try_from_ymd(y, m, d).unwrap();
+    let n = x.days();
+    let b = o_trunc_t(unit, y, m, d, n);
+    let r = match unit {
+        0 => x.trunc_century(),
+        1 => x.trunc_year(),
+        2 => x.trunc_iso_year(),
+        3 => x.trunc_quarter(),
+        4 => x.trunc_month(),
+        5 => x.trunc_week(),
+        6 => x.trunc_iso_week(),
+        7 => x.trunc_month_start_week(),
+        8 => x.trunc_day(),
+        9 => x.trunc_sunday_start_week(),
+        10 => x.trunc_hour(),
+        _ => x.trunc_minute(),
+    };
+    match r {
+        Ok(v) => assert!(b >= DAY_MIN && v.days() == b),
+        Err(_) => assert!(b < DAY_MIN),
+    }
+}
+
+//@ unit s11_date prop=C11,C02,C03 engine=smt chunks=ints:0,1,2,3,4,6,7,8,9,10,11 quick=all timeout=1800 mem=4 bound="Date rounding to the unit given by the parameter (all units but the year-anchored week, which c11_date__v5 covers) for every real date: the documented neighbour, DateOutOfRange iff it lies outside 0001-01-01..9999-12-31; for the century unit the years divisible by 100 are excluded here (c11_century_y00_*); Date::extract under its contract"
+fn s11_date(unit: i64) {
+    let y: i32 = kani::any();
+    let m: u32 = kani::any();
+    let d: u32 = kani::any();
+    kani::assume(o_valid_ymd(y, m, d));
+    if unit == 0 {
+        kani::assume(y % 100 != 0);
+    }
+    let x = Date::try_from_ymd(y, m, d).unwrap();
+    let n = x.days();
+    let wd = o_weekday(n) as i32;
+    let week = |off: i32| -> i64 { if off >= 4 { n as i64 + (7 - off) as i64 } else { n as i64 - off as i64 } };
+    let big = i64::MAX;
+    let b: i64 = match unit {
+        0 => {
+            let c = y - (y - 1) % 100;
+            if y - c + 1 >= 51 { if c + 100 > 9999 { big } else { o_daynum_t(c + 100, 1, 1) as i64 } } else { o_daynum_t(c, 1, 1) as i64 }
+        }
+        1 => if m >= 7 { if y == 9999 { big } else { o_daynum_t(y + 1, 1, 1) as i64 } } else { o_daynum_t(y, 1, 1) as i64 },
+        2 => if m >= 7 { if y == 9999 { big } else { o_iso_start_t(y + 1) as i64 } } else { o_trunc_t(2, y, m, d, n) as i64 },
+        3 => {
+            let q1 = (m - 1) / 3 * 3 + 1;
+            if m > q1 + 1 || (m == q1 + 1 && d >= 16) {
+                if q1 == 10 { if y == 9999 { big } else { o_daynum_t(y + 1, 1, 1) as i64 } } else { o_daynum_t(y, q1 + 3, 1) as i64 }
+            } else {
+                o_daynum_t(y, q1, 1) as i64
+            }
+        }
+        4 => if d >= 16 { if m == 12 { if y == 9999 { big } else { o_daynum_t(y + 1, 1, 1) as i64 } } else { o_daynum_t(y, m + 1, 1) as i64 } } else { o_daynum_t(y, m, 1) as i64 },
+        5 => week((o_doy(y, m, d) as i32 - 1) % 7),
+        6 => week((wd + 5) % 7),
+        7 => week((d as i32 - 1) % 7),
+        9 => week(wd - 1),
+        _ => n as i64,
+    };
+    let r = match unit {
+        0 => x.round_century(),
+        1 => x.round_year(),
+        2 => x.round_iso_year(),
+        3 => x.round_quarter(),
+        4 => x.round_month(),
+        5 => x.round_week(),
+        6 => x.round_iso_week(),
+        7 => x.round_month_start_week(),
+        8 => x.round_day(),
+        9 => x.round_sunday_start_week(),
+        10 => x.round_hour(),
+        _ => x.round_minute(),
+    };
+    match r {
+        Ok(v) => assert!(v.days() as i64 == b),
+        Err(_) => assert!(b < DAY_MIN as i64 || b > DAY_MAX as i64),
+    }
+}
+
+//@ unit s09_ts_add_months prop=C09,C17,C02,C03 engine=smt bound="every valid timestamp x every month offset: Timestamp::add/sub_interval_ym hands its own date part (floor split) and the (negated) interval to the date-level month arithmetic (havoc'd here, decided by s09_add_months / c09_date_add) and re-attaches the unchanged time of day; errors passed through"
+fn s09_ts_add_months() {
+    let u: i64 = kani::any();
+    let k: i32 = kani::any();
+    kani::assume(u >= TS_MIN && u <= TS_MAX && k >= -YM_MAX && k <= YM_MAX);
+    let ts = mk_ts(u);
+    let n = u.div_euclid(USECS_DAY);
+    let t = u.rem_euclid(USECS_DAY);
+    let d = mk_date(n as i32);
+    match (ts.add_interval_ym(mk_ym(k)), d.add_interval_ym(mk_ym(k))) {
+        (Ok(a), Ok(b)) => assert!(a.usecs() == b.usecs() + t),
+        (Err(_), Err(_)) => {}
+        _ => assert!(false),
+    }
+    match (ts.sub_interval_ym(mk_ym(k)), d.sub_interval_ym(mk_ym(k))) {
+        (Ok(a), Ok(b)) => assert!(a.usecs() == b.usecs() + t),
+        (Err(_), Err(_)) => {}
+        _ => assert!(false),
+    }
+}
+
+//@ unit s17_cmp prop=C17,C03 engine=smt bound="every valid Date, Timestamp and Oracle-style date: == and partial_cmp between Date/Timestamp, OracleDate/Timestamp and OracleDate/Date in both argument orders equal the comparison of the converted microsecond counts"
+fn s17_cmp() {
+    let n: i32 = kani::any();
+    let u: i64 = kani::any();
+    let secs: i64 = kani::any();
+    kani::assume(n >= DAY_MIN && n <= DAY_MAX && u >= TS_MIN && u <= TS_MAX && secs >= TS_MIN / 1_000_000 && secs <= TS_MAX / 1_000_000);
+    let (d, ts, od) = (mk_date(n), mk_ts(u), mk_od(secs * 1_000_000));
+    let (dv, ov) = (n as i64 * USECS_DAY, secs * 1_000_000);
+    assert!((d == ts) == (dv == u) && (ts == d) == (dv == u) && d.partial_cmp(&ts) == Some(dv.cmp(&u)) && ts.partial_cmp(&d) == Some(u.cmp(&dv)));
+    assert!((od == ts) == (ov == u) && (ts == od) == (ov == u) && od.partial_cmp(&ts) == Some(ov.cmp(&u)) && ts.partial_cmp(&od) == Some(u.cmp(&ov)));
+    assert!((od == d) == (ov == dv) && (d == od) == (ov == dv) && od.partial_cmp(&d) == Some(ov.cmp(&dv)) && d.partial_cmp(&od) == Some(dv.cmp(&ov)));
 }
